@@ -58,7 +58,7 @@ fn prf(mk: u64, t: u8) -> PrfHybridReport<BA8, BA3> {
 /// BOUNDED (<= 3 reports, match keys in {0,1}): the grouping over the real BTreeMap returns one pair per key
 /// that occurs exactly twice, keys ascending, each pair in arrival order.
 #[kani::proof]
-#[kani::unwind(6)]
+#[kani::unwind(10)]
 #[kani::solver(kissat)]
 fn c01_group_pairs_small() {
     let n: usize = kani::any();
